@@ -11,7 +11,9 @@ From WG Require Import Base.Prelude Gen.Constants Tai64n.Model HsGate.Model.
 Local Open Scope N_scope.
 
 Record obs := { o_out : list out; o_snap : list (list N); o_table : list tentry }.
-Record tstep := { s_ev : event; s_obs : obs }.
+(* s_hi: harness clock when the step had settled (e_now of the event is the harness clock
+   just before the action), so the device acted at some instant in [e_now, s_hi]. *)
+Record tstep := { s_ev : event; s_hi : N; s_obs : obs }.
 
 Definition out_eqb (a b : out) : bool :=
   match a, b with
@@ -80,7 +82,11 @@ Record sst := {
   sloaded : bool                 (* VerifForceUnderLoad in effect *)
 }.
 
-Definition flood_sure : N := rate / 4.   (* 5 ms: measured gaps below this are certainly inside the 20 ms *)
+(* "at least 1/50 s has passed": the number the PROPERTY names, not the code's
+   constant (C06_constants pins the latter to it).  An initiation answered at some
+   instant <= s_hi after an earlier one was consumed at some instant >= its e_now
+   is certainly inside the interval when s_hi - e_now_earlier < 1/50 s. *)
+Definition prop_rate : N := ns_per_s / 50.
 
 Definition resp_peer (o : list out) : option N :=
   match find (fun x => match x with OResp _ _ _ _ _ => true | _ => false end) o with
@@ -129,7 +135,7 @@ Definition clauses (s : sst) (t : tstep) : list N * sst :=
           | Some p =>
               let mine := filter (fun x => fst (fst x) =? p) (acc s) in
               let c2 := if existsb (fun x => m_ts m <=? snd (fst x)) mine then [2] else [] in
-              let c3 := if existsb (fun x => now - snd x <? flood_sure) mine then [3] else [] in
+              let c3 := if existsb (fun x => s_hi t - snd x <? prop_rate) mine then [3] else [] in
               (c1 ++ c2 ++ c3 ++ c6,
                upd s ((p, m_ts m, now) :: acc s) em (answered s) n o)
           | None => (c1 ++ c6, upd s (acc s) em (answered s) n o)
